@@ -57,7 +57,7 @@ def run(case) -> CaseResult:
 
 CHECK = Check(
     id="C01",
-    parts=[Part("functional", run, strategy=strategy, budget={"quick": 2400, "thorough": 60000})],
+    parts=[Part("functional", run, strategy=strategy, budget={"quick": 6000, "thorough": 400000})],
     rule=("Hypothesis draws (op of the 16 public functions, shapes with 0-3 leading batch dims, dtype, every hyper-parameter, "
           "constraint name, value profile, two data seeds; 15% of eligible cases set one unsupported argument). Oracle: PyTorch "
           "reference op on identical tensors, least-squares scalar fit. Non-trivial = reference output has >= 2 elements and the "
